@@ -10,7 +10,8 @@
   * `graft s sub (s', o)` `({ s with root := setAt s.root sub s'.root }, o)`: the outcome of a step on the
                           sub-tree put back into the parent — NOTHING outside `sub` changes;
   * `V es`                the open reference filesystem whose root directory has the entries `es`;
-  * `noNul op`            no path argument contains NUL;
+  * `nulRootTest op`      `removedir`/`removetree` of a path that contains NUL and climbs (or, for `removedir`,
+                          normalises to the root): `WrapFS` runs `normpath` on it before `delegate_path`;
   * `mapPaths f op`       the same call with every path argument `p` replaced by `f p`.
   Helper lemmas live in FsProofs/Lemmas/Wrap*.lean; this file holds the property theorems.
 -/
@@ -121,25 +122,51 @@ sub-directory's components followed by the resolved components of the user's pat
 theorem sub_delegate_under (sub : List Name) (hs : ∀ c ∈ sub, cleanName c = true) (p q : Str)
     (h : Wrap.Sub.delegate (absOf sub) p = .ok q) :
     ∃ cs, PathSpec.resolve (Path.splitSlash p) = some cs ∧ PathSpec.Clean cs ∧ q = absOf (sub ++ cs) := by
-  rcases delegate_cases sub (clean_of_cleanName hs) p with ⟨cs, hr, hd, _⟩ | ⟨_, hd, _⟩
+  rcases delegate_cases sub (clean_of_cleanName hs) p with ⟨cs, _, hr, hd, _⟩ | ⟨_, _, hd⟩
   · rw [hd] at h; cases h
     exact ⟨cs, hr, PathLemmas.resolve_result_clean p cs hr, rfl⟩
   · rw [hd] at h; cases h
 
-/-- **a climbing path argument — in any argument position of any method — is rejected with
-IllegalBackReference before the wrapped filesystem is touched**: no inner call is made, whatever
-the inner filesystem is -/
+/-- `delegate_path` as repaired: it fails exactly when the reference's `validate` fails, with the
+same class (NUL first, then climbing), and otherwise prefixes the validated components -/
+theorem sub_delegate_is_validate (sub : List Name) (hs : ∀ c ∈ sub, cleanName c = true) (p : Str) :
+    Wrap.Sub.delegate (absOf sub) p =
+      (match validate p with
+       | .ok cs => .ok (absOf (sub ++ cs))
+       | .err e => .err e) :=
+  delegate_eq_validate (clean_of_cleanName hs) p
+
+/-- **a path argument that does not validate — it climbs, or contains NUL — in any argument position
+of any method is rejected before the wrapped filesystem is touched**: no inner call is made, whatever
+the inner filesystem is; the class is IllegalBackReference, InvalidCharsInPath, or (only
+`removedir` of a NUL path that normalises to the root) RemoveRootError -/
+theorem sub_invalid_path_rejected {σ : Type} (F : FS σ) (sub : List Name) (hs : ∀ c ∈ sub, cleanName c = true)
+    (w : WState σ) (op : Op) (hc : w.closed = false)
+    (hinv : ∃ p ∈ op.paths, ∃ e, validate p = .err e) :
+    ∃ e, Wrap.Sub.step false (absOf sub) F w op = (w, .err e) ∧
+      (¬ nulRootTest op → ∃ p ∈ op.paths, validate p = .err e) := by
+  have hop : op ≠ .close := by
+    intro h; subst h; obtain ⟨p, hp, _⟩ := hinv; simp [Op.paths] at hp
+  obtain ⟨e, hW, hrest⟩ := stepOpen_invalid F sub (clean_of_cleanName hs) w.inner op hinv
+  refine ⟨e, ?_, fun hx => (hrest hx).1⟩
+  rw [Wrap.Sub.step, open_wrapper_step false _ F w op hc hop]
+  rw [Wrap.Sub.stepOpen] at hW
+  rw [hW]
+
+/-- in particular a climbing path (`C03`): IllegalBackReference or, when it also contains NUL,
+InvalidCharsInPath — never an inner call -/
 theorem sub_climbing_rejected {σ : Type} (F : FS σ) (sub : List Name) (hs : ∀ c ∈ sub, cleanName c = true)
     (w : WState σ) (op : Op) (hc : w.closed = false)
     (hcl : ∃ p ∈ op.paths, PathSpec.climbs (Path.splitSlash p)) :
-    Wrap.Sub.step false (absOf sub) F w op = (w, .err .IllegalBackReference) := by
-  have hop : op ≠ .close := by
-    intro h; subst h; obtain ⟨p, hp, _⟩ := hcl; simp [Op.paths] at hp
-  rw [Wrap.Sub.step, open_wrapper_step false _ F w op hc hop]
-  have := stepOpen_climb F sub (clean_of_cleanName hs) w.inner op hcl
-  rw [Wrap.Sub.stepOpen] at this
-  rw [this]
-
+    ∃ e, Wrap.Sub.step false (absOf sub) F w op = (w, .err e) := by
+  obtain ⟨p, hp, hr⟩ := hcl
+  have hinv : ∃ p ∈ op.paths, ∃ e, validate p = .err e := by
+    refine ⟨p, hp, ?_⟩
+    cases hv : validate p with
+    | err e => exact ⟨e, rfl⟩
+    | ok cs => have := validate_ok_resolve hv; rw [hr] at this; cases this
+  obtain ⟨e, h, _⟩ := sub_invalid_path_rejected F sub hs w op hc hinv
+  exact ⟨e, h⟩
 
 /-! ## (d) wrapping preserves refinement -/
 
@@ -164,7 +191,7 @@ theorem mem_refines : RefinesRef Mem.step := fun s op hc hd hwf hk hl => mem_ref
 sense of `mem_refines_ref` (same verdict; on success the same value and tree; on failure an
 admissible class and an unchanged state).  Then an open `SubFS` at `sub` over `F`, on a parent state
 `s` whose `sub` is a directory (entries `es`), behaves like the reference on the SUB-TREE taken as a
-root, for every operation and every NUL-free path argument (climbing ones included):
+root, for every operation and every path argument (climbing and NUL ones included; `nulRootTest` aside):
 * same verdict as `Ref.step (V es) op`;
 * on success the same value, and the parent tree is `s.root` with the sub-tree replaced by the
   reference's resulting tree — nothing else changes (`graft`);
@@ -173,7 +200,7 @@ Excluded, as in `mem_refines_ref`: the known `movedir`-into-ancestor deviation c
 mid-way failure of a bulk merge. -/
 theorem wrap_preserves_refinement (F : FS State) (hF : RefinesRef F) (sub : List Name) (s : State) (es : Ents)
     (op : Op) (hc : s.closed = false) (hwf : s.root.wf = true) (hdir : s.root.get sub = some (.dir es))
-    (hop : op ≠ .close) (hnn : noNul op) (hk : ¬ knownDeviation op)
+    (hop : op ≠ .close) (hnn : ¬ nulRootTest op) (hk : ¬ knownDeviation op)
     (hl : (Ref.step (V es) op).2 ≠ .err .OperationFailed) :
     ((Wrap.Sub.stepOpen (absOf sub) F s op).2.isOk = (Ref.step (V es) op).2.isOk) ∧
     ((Ref.step (V es) op).2.isOk = true →
@@ -199,7 +226,7 @@ theorem wrap_preserves_refinement (F : FS State) (hF : RefinesRef F) (sub : List
 /-- (d) instantiated: **SubFS over MemoryFS as coded refines the reference** on the sub-tree -/
 theorem sub_mem_refines_ref (sub : List Name) (s : State) (es : Ents) (op : Op) (hc : s.closed = false)
     (hwf : s.root.wf = true) (hdir : s.root.get sub = some (.dir es))
-    (hop : op ≠ .close) (hnn : noNul op) (hk : ¬ knownDeviation op)
+    (hop : op ≠ .close) (hnn : ¬ nulRootTest op) (hk : ¬ knownDeviation op)
     (hl : (Ref.step (V es) op).2 ≠ .err .OperationFailed) :
     ((Wrap.Sub.stepOpen (absOf sub) Mem.step s op).2.isOk = (Ref.step (V es) op).2.isOk) ∧
     ((Ref.step (V es) op).2.isOk = true →
@@ -229,7 +256,7 @@ sub-tree at `s₁ ++ … ++ sₙ` of the base tree (statement as in `wrap_preser
 theorem nested_sub_simulates (F : FS State) (hF : RefinesRef F) (subs : List (List Name)) (s : State) (es : Ents)
     (op : Op) (hc : s.closed = false) (hwf : s.root.wf = true)
     (hdir : s.root.get (nestPath subs) = some (.dir es))
-    (hop : op ≠ .close) (hnn : noNul op) (hk : ¬ knownDeviation op)
+    (hop : op ≠ .close) (hnn : ¬ nulRootTest op) (hk : ¬ knownDeviation op)
     (hl : (Ref.step (V es) op).2 ≠ .err .OperationFailed) :
     let W := Wrap.Sub.nest F (subs.map absOf)
     ((W s op).2.isOk = (Ref.step (V es) op).2.isOk) ∧
@@ -252,7 +279,7 @@ theorem nested_sub_simulates (F : FS State) (hF : RefinesRef F) (subs : List (Li
 /-- every nesting depth of SubFS over the reference itself … -/
 theorem nested_sub_over_ref (subs : List (List Name)) (s : State) (es : Ents) (op : Op) (hc : s.closed = false)
     (hwf : s.root.wf = true) (hdir : s.root.get (nestPath subs) = some (.dir es))
-    (hop : op ≠ .close) (hnn : noNul op)
+    (hop : op ≠ .close) (hnn : ¬ nulRootTest op)
     (hk : ¬ knownDeviation op) (hl : (Ref.step (V es) op).2 ≠ .err .OperationFailed) :
     let W := Wrap.Sub.nest Ref.step (subs.map absOf)
     ((W s op).2.isOk = (Ref.step (V es) op).2.isOk) ∧
@@ -263,7 +290,7 @@ theorem nested_sub_over_ref (subs : List (List Name)) (s : State) (es : Ents) (o
 /-- … and **over MemoryFS as coded** (`MemRefines.mem_refines_ref` + induction on the depth) -/
 theorem nested_sub_over_mem (subs : List (List Name)) (s : State) (es : Ents) (op : Op) (hc : s.closed = false)
     (hwf : s.root.wf = true) (hdir : s.root.get (nestPath subs) = some (.dir es))
-    (hop : op ≠ .close) (hnn : noNul op)
+    (hop : op ≠ .close) (hnn : ¬ nulRootTest op)
     (hk : ¬ knownDeviation op) (hl : (Ref.step (V es) op).2 ≠ .err .OperationFailed) :
     let W := Wrap.Sub.nest Mem.step (subs.map absOf)
     ((W s op).2.isOk = (Ref.step (V es) op).2.isOk) ∧
@@ -280,22 +307,25 @@ def viewW (w : WState State) (es : Ents) : State := ⟨.dir es, w.closed⟩
 
 /-- **sub_simulates.**  `sub` a path that is a directory (entries `es`) in the open, well-formed parent
 `w.inner` (so its components are legal names).  For EVERY operation (close included, open or closed wrapper) and every
-NUL-free path argument (climbing ones included) outside the two decided exception classes,
+path argument (climbing and NUL ones included — no `noNul` hypothesis since the repair of
+`SubFS.delegate_path`, /repo 6fe32c8) outside three decided exception classes,
 one call on the `SubFS` object is one call of the reference on the sub-tree taken as a root:
 * the same outcome — verdict, value AND error class;
 * the wrapper's closed flag is the view's;
 * the parent tree afterwards is the parent tree before with the sub-tree replaced by the reference's
   resulting tree (`setAt` = `Node.set`) — nothing else changes; in particular `removetree "/"` leaves
   `sub` in place as an empty directory and `getinfo "/"` reports the name `""`.
-The view differs from a plain filesystem rooted there exactly in: `excOpenbin` (invalid mode AND
-climbing path: IllegalBackReference instead of ValueError), `excCopydir` (copy into itself when an
-earlier guard of `WrapFS.copydir` also fires: that guard's class instead of IllegalDestination) and
-paths containing NUL (`sub_nul_path_counterexample`); all three are decidable predicates of the call
-(and the state), and the frame below holds for them too. -/
+The view differs from a plain filesystem rooted there exactly in — error CLASS only, both calls fail
+and nothing changes —: `excOpenbin` (invalid mode AND invalid path: the path's class instead of
+ValueError), `excCopydir` (copy into itself when an earlier guard of `WrapFS.copydir` also fires: that
+guard's class instead of IllegalDestination) and `nulRootTest` (`removedir`/`removetree` of a path that
+contains NUL and climbs, or `removedir` of a NUL path normalising to the root: `normpath` runs before
+`delegate_path`); all three are decidable predicates of the call (and the state), each has a
+`decide`d counterexample below, and the frame holds for them too. -/
 theorem sub_simulates (sub : List Name) (w : WState State) (es : Ents) (op : Op)
     (hc : w.inner.closed = false) (hwf : w.inner.root.wf = true)
     (hdir : w.inner.root.get sub = some (.dir es))
-    (hnn : noNul op) (hx1 : ¬ excOpenbin op) (hx2 : ¬ excCopydir es op) :
+    (hnn : ¬ nulRootTest op) (hx1 : ¬ excOpenbin op) (hx2 : ¬ excCopydir es op) :
     Wrap.Sub.step false (absOf sub) Ref.step w op =
       (⟨(Ref.step (viewW w es) op).1.closed,
         { w.inner with root := setAt w.inner.root sub (Ref.step (viewW w es) op).1.root }⟩,
@@ -354,12 +384,12 @@ theorem sub_frame (sub : List Name) (w : WState State) (es : Ents) (op : Op)
   rw [hx]
   exact get_setAt_diverge sub q _ _ h1 h2
 
-/-- the view cannot tell a path from its normalised spelling (any inner filesystem, any operation):
-this is all that a NUL in a path argument can change -/
+/-- the view cannot tell a NUL-free path from its normalised spelling (any inner filesystem, any
+operation) -/
 theorem sub_sees_normalised_paths {σ : Type} (F : FS σ) (sub : List Name) (hsub : ∀ c ∈ sub, cleanName c = true)
-    (s : σ) (op : Op) (hall : ∀ p ∈ op.paths, ¬ PathSpec.climbs (Path.splitSlash p)) :
+    (s : σ) (op : Op) (hnn : noNul op) (hall : ∀ p ∈ op.paths, ¬ PathSpec.climbs (Path.splitSlash p)) :
     Wrap.Sub.stepOpen (absOf sub) F s op = Wrap.Sub.stepOpen (absOf sub) F s (mapPaths normPath op) := by
-  refine stepOpen_norm F sub (clean_of_cleanName hsub) s op ?_
+  refine stepOpen_norm F sub (clean_of_cleanName hsub) s op hnn ?_
   intro p hp
   cases hr : PathSpec.resolve (Path.splitSlash p) with
   | none => exact absurd hr (hall p hp)
@@ -368,13 +398,25 @@ theorem sub_sees_normalised_paths {σ : Type} (F : FS σ) (sub : List Name) (hsu
 /-! ### the decided exception classes are real (witnesses on the model; replayed on the real code by
 `harness/props/_wrapexact.py`) -/
 
-/-- a NUL that normalisation removes: the SubFS answers, the reference (and MemoryFS) refuse -/
-theorem sub_nul_path_counterexample :
+/-- REPAIRED (/repo 6fe32c8; was `sub_nul_path_counterexample`): a NUL that normalisation would
+remove is refused by the SubFS exactly as by the reference — `delegate_path` now looks at the raw
+path's characters first -/
+theorem sub_nul_path_repaired :
     let t : Node := .dir [("x".toList, .dir [("b".toList, .file [1])])]
     let s : State := ⟨t, false⟩
     let p : Str := "z\x00/../b".toList
-    (Wrap.Sub.stepOpen "/x".toList Ref.step s (.exists_ p)).2 = .ok (.bool true) ∧
+    (Wrap.Sub.stepOpen "/x".toList Ref.step s (.exists_ p)).2 = .err .InvalidCharsInPath ∧
     (Ref.step ⟨.dir [("b".toList, .file [1])], false⟩ (.exists_ p)).2 = .err .InvalidCharsInPath := by
+  decide
+
+/-- what is left of the NUL difference (`nulRootTest`, class only, both fail): `WrapFS.removedir`
+evaluates `abspath(normpath(path))` before `delegate_path` -/
+theorem sub_nul_root_test_counterexample :
+    let s : State := ⟨.dir [("x".toList, .dir [])], false⟩
+    (Wrap.Sub.stepOpen "/x".toList Ref.step s (.removedir "z\x00/..".toList)).2 = .err .RemoveRootError ∧
+    (Wrap.Sub.stepOpen "/x".toList Ref.step s (.removetree "z\x00/../..".toList)).2 = .err .IllegalBackReference ∧
+    (Ref.step ⟨.dir [], false⟩ (.removedir "z\x00/..".toList)).2 = .err .InvalidCharsInPath ∧
+    (Ref.step ⟨.dir [], false⟩ (.removetree "z\x00/../..".toList)).2 = .err .InvalidCharsInPath := by
   decide
 
 /-- `openbin` with an invalid mode and a climbing path: the class differs (both fail) -/
